@@ -258,55 +258,83 @@ end gam
 
 /-! ### (c) evaluation trees for `c - Σ aᵢ bᵢ` and Higham's Lemma 8.4 in every order
 
-Signs: floating-point negation is exact, so an evaluation that forms `-(a*b)`, `(-s) + t`, … is
-bit-for-bit one of the trees below (with `a` replaced by `-a` where needed); nothing is lost by
-keeping all leaves positive in `STree` and subtracting on the spine that carries `c`. -/
+An evaluation of `c - Σ aᵢ bᵢ` is a binary tree whose leaves are `c` (once) and the products.  The
+path from `c` to the root is the SPINE (`CTree`); what hangs off the spine are sums of products
+accumulated separately (`STree`: a panel / supernode / gemv block, a BLAS kernel's partial sums).
+Every product, addition, subtraction is rounded once (`Rnd`); a fused multiply-add/subtract rounds
+once for the pair; negation is exact (as it is in binary floating point).  Signs are free:
+`t + s`, `t - s`, `s₁ - s₂`, `-s`, `s ± a*b` are all available, and `leaves` records each product
+with the sign it effectively carries, so that a tree always computes `head - Σ_{(a,b) ∈ leaves} a b`. -/
 
-/-- a sum of products in some association: every product and every addition is rounded once;
-`fma s a b` is `fl(s + a*b)` with a single rounding -/
+/-- a signed sum of products in some association -/
 inductive STree (F : Type) where
-  | leaf (a b : F)
-  | add (s t : STree F)
-  | fma (s : STree F) (a b : F)
+  | leaf (a b : F)                    -- fl(a*b)
+  | add (s t : STree F)               -- fl(s + t)
+  | sub (s t : STree F)               -- fl(s - t)
+  | neg (s : STree F)                 -- -s (exact)
+  | fma (s : STree F) (a b : F)       -- fl(s + a*b), one rounding
+  | fms (s : STree F) (a b : F)       -- fl(s - a*b), one rounding
 
-/-- the spine that carries `c`: `sub t s` is `fl(t - s)` for a separately accumulated sum `s`
-(a panel / supernode / gemv block), `fms t a b` is `fl(t - a*b)` with a single rounding -/
+/-- the spine that carries `c` -/
 inductive CTree (F : Type) where
-  | lit (c : F)
-  | sub (t : CTree F) (s : STree F)
-  | fms (t : CTree F) (a b : F)
+  | lit (c : F)                       -- the datum itself (no rounding)
+  | sub (t : CTree F) (s : STree F)   -- fl(t - s)
+  | add (t : CTree F) (s : STree F)   -- fl(t + s)
+  | fms (t : CTree F) (a b : F)       -- fl(t - a*b), one rounding
+  | fma (t : CTree F) (a b : F)       -- fl(t + a*b), one rounding
 
-/-- the products of a sum tree, left to right -/
+/-- flip the sign of every product -/
+def negl (l : List (F × F)) : List (F × F) := l.map fun p => (-p.1, p.2)
+
+/-- the products of a sum tree, left to right, with their effective signs: the tree computes
+`Σ_{(a,b) ∈ leaves} a b` -/
 def STree.leaves : STree F → List (F × F)
   | .leaf a b => [(a, b)]
   | .add s t => s.leaves ++ t.leaves
+  | .sub s t => s.leaves ++ negl t.leaves
+  | .neg s => negl s.leaves
   | .fma s a b => s.leaves ++ [(a, b)]
+  | .fms s a b => s.leaves ++ [(-a, b)]
 
+/-- the products SUBTRACTED from the head: the tree computes `head - Σ_{(a,b) ∈ leaves} a b` -/
 def CTree.leaves : CTree F → List (F × F)
   | .lit _ => []
   | .sub t s => t.leaves ++ s.leaves
+  | .add t s => t.leaves ++ negl s.leaves
   | .fms t a b => t.leaves ++ [(a, b)]
+  | .fma t a b => t.leaves ++ [(-a, b)]
 
 /-- the datum the products are subtracted from -/
 def CTree.head : CTree F → F
   | .lit c => c
   | .sub t _ => t.head
+  | .add t _ => t.head
   | .fms t _ _ => t.head
+  | .fma t _ _ => t.head
 
 /-- `s.Eval u y`: `y` is a value the tree can produce when every operation obeys the standard model -/
 inductive STree.Eval (u : F) : STree F → F → Prop
   | leaf {a b y : F} : Rnd u (a * b) y → STree.Eval u (.leaf a b) y
   | add {s t : STree F} {ys yt y : F} : STree.Eval u s ys → STree.Eval u t yt → Rnd u (ys + yt) y →
       STree.Eval u (.add s t) y
+  | sub {s t : STree F} {ys yt y : F} : STree.Eval u s ys → STree.Eval u t yt → Rnd u (ys - yt) y →
+      STree.Eval u (.sub s t) y
+  | neg {s : STree F} {ys : F} : STree.Eval u s ys → STree.Eval u (.neg s) (-ys)
   | fma {s : STree F} {a b ys y : F} : STree.Eval u s ys → Rnd u (ys + a * b) y →
       STree.Eval u (.fma s a b) y
+  | fms {s : STree F} {a b ys y : F} : STree.Eval u s ys → Rnd u (ys - a * b) y →
+      STree.Eval u (.fms s a b) y
 
 inductive CTree.Eval (u : F) : CTree F → F → Prop
   | lit (c : F) : CTree.Eval u (.lit c) c
   | sub {t : CTree F} {s : STree F} {yt ys y : F} : CTree.Eval u t yt → STree.Eval u s ys →
       Rnd u (yt - ys) y → CTree.Eval u (.sub t s) y
+  | add {t : CTree F} {s : STree F} {yt ys y : F} : CTree.Eval u t yt → STree.Eval u s ys →
+      Rnd u (yt + ys) y → CTree.Eval u (.add t s) y
   | fms {t : CTree F} {a b yt y : F} : CTree.Eval u t yt → Rnd u (yt - a * b) y →
       CTree.Eval u (.fms t a b) y
+  | fma {t : CTree F} {a b yt y : F} : CTree.Eval u t yt → Rnd u (yt + a * b) y →
+      CTree.Eval u (.fma t a b) y
 
 /-- exact sum of the products and of their absolute values -/
 def dotSum (l : List (F × F)) : F := (l.map fun p => p.1 * p.2).sum
@@ -339,6 +367,26 @@ theorem dotAbs_range (a b : Nat → F) (k : Nat) :
   | zero => simp [dotAbs]
   | succ k ih =>
     rw [List.range_succ, List.map_append, dotAbs_append, ih, Finset.sum_range_succ]; simp [dotAbs]
+
+@[simp] theorem negl_length (l : List (F × F)) : (negl l).length = l.length := by simp [negl]
+theorem negl_negl (l : List (F × F)) : negl (negl l) = l := by
+  induction l with
+  | nil => rfl
+  | cons p l ih => simp only [negl, List.map_cons, neg_neg] at ih ⊢; rw [ih]
+theorem dotSum_negl (l : List (F × F)) : dotSum (negl l) = -dotSum l := by
+  induction l with
+  | nil => simp [negl, dotSum]
+  | cons p l ih =>
+    have e1 : dotSum (negl (p :: l)) = -p.1 * p.2 + dotSum (negl l) := by simp [negl, dotSum]
+    have e2 : dotSum (p :: l) = p.1 * p.2 + dotSum l := by simp [dotSum]
+    rw [e1, e2, ih]; ring
+theorem dotAbs_negl (l : List (F × F)) : dotAbs (negl l) = dotAbs l := by
+  induction l with
+  | nil => simp [negl, dotAbs]
+  | cons p l ih =>
+    have e1 : dotAbs (negl (p :: l)) = |(-p.1)| * |p.2| + dotAbs (negl l) := by simp [negl, dotAbs]
+    have e2 : dotAbs (p :: l) = |p.1| * |p.2| + dotAbs l := by simp [dotAbs]
+    rw [e1, e2, ih, abs_neg]
 
 /-- `PSum u k l y`: `y = Σ_{(a,b) ∈ l} a b r` with every `r` a perturbation factor of count `k` -/
 inductive PSum (u : F) (k : Nat) : List (F × F) → F → Prop
@@ -373,6 +421,28 @@ theorem PSum.single {k : Nat} {r : F} (a b : F) (hr : Fac u k r) :
     PSum u k [(a, b)] (a * b * r) := by
   simpa using PSum.cons (a := a) (b := b) hr (PSum.nil (u := u) (k := k))
 
+theorem PSum.neg {k : Nat} {l : List (F × F)} {y : F} (h : PSum u k l y) : PSum u k (negl l) (-y) := by
+  induction h with
+  | nil => simpa [negl] using PSum.nil (u := u) (k := k)
+  | @cons a b r y l hr _ ih =>
+    have e : -(a * b * r + y) = -a * b * r + -y := by ring
+    rw [e]; exact .cons hr ih
+
+/-- one rounded addition of two separately accumulated sums -/
+theorem PSum.step_add (hu0 : 0 ≤ u) (hu1 : u < 1) {j k : Nat} {l l' : List (F × F)} {y y' d : F}
+    (hj : 0 < j) (hk : 0 < k) (h : PSum u j l y) (h' : PSum u k l' y') (hd : |d| ≤ u) :
+    PSum u (j + k) (l ++ l') ((y + y') * (1 + d)) := by
+  have h1 := (h.mono hu0 hu1 (k := j + k - 1) (by omega)).append (h'.mono hu0 hu1 (k := j + k - 1) (by omega))
+  have h2 := h1.scale hu1 (Fac.one_add hu1 hd)
+  have e : j + k - 1 + 1 = j + k := by omega
+  rwa [e] at h2
+
+/-- one fused multiply-add onto an accumulated sum -/
+theorem PSum.step_fma (hu0 : 0 ≤ u) (hu1 : u < 1) {j : Nat} {l : List (F × F)} {y d : F} (a b : F)
+    (h : PSum u j l y) (hd : |d| ≤ u) : PSum u (j + 1) (l ++ [(a, b)]) ((y + a * b) * (1 + d)) := by
+  have h0 : PSum u j [(a, b)] (a * b) := by simpa using PSum.single a b (Fac.one u hu0 hu1 j)
+  exact (h.append h0).scale hu1 (Fac.one_add hu1 hd)
+
 /-- the perturbed sum is within `γ_k Σ|a||b|` of the exact sum -/
 theorem PSum.bound (hu0 : 0 ≤ u) {k : Nat} (hk : (k : F) * u < 1) {l : List (F × F)} {y : F}
     (h : PSum u k l y) : |y - dotSum l| ≤ gamma u k * dotAbs l := by
@@ -396,10 +466,13 @@ section trees
 variable {u : F}
 
 theorem STree.leaves_length_pos (s : STree F) : 0 < s.leaves.length := by
-  cases s with
+  induction s with
   | leaf a b => simp [STree.leaves]
-  | add s t => simp only [STree.leaves, List.length_append]; have := s.leaves_length_pos; omega
-  | fma s a b => simp [STree.leaves]
+  | add s t ihs _ => simp only [STree.leaves, List.length_append]; omega
+  | sub s t ihs _ => simp only [STree.leaves, List.length_append]; omega
+  | neg s ih => simpa [STree.leaves] using ih
+  | fma s a b _ => simp [STree.leaves]
+  | fms s a b _ => simp [STree.leaves]
 
 /-- every value of a sum tree with `j` products is a perturbed sum with factors of count `j` -/
 theorem STree.Eval.psum (hu0 : 0 ≤ u) (hu1 : u < 1) {s : STree F} {y : F} (h : s.Eval u y) :
@@ -410,20 +483,54 @@ theorem STree.Eval.psum (hu0 : 0 ≤ u) (hu1 : u < 1) {s : STree F} {y : F} (h :
     exact PSum.single a b (Fac.one_add hu1 hd)
   | @add s t ys yt y _ _ h ihs iht =>
     obtain ⟨d, hd, rfl⟩ := h
-    have hs := s.leaves_length_pos
-    have ht := t.leaves_length_pos
     simp only [STree.leaves, List.length_append]
-    have h1 := (ihs.mono hu0 hu1 (k := s.leaves.length + t.leaves.length - 1) (by omega)).append
-      (iht.mono hu0 hu1 (k := s.leaves.length + t.leaves.length - 1) (by omega))
-    have h2 := h1.scale hu1 (Fac.one_add hu1 hd)
-    have e : s.leaves.length + t.leaves.length - 1 + 1 = s.leaves.length + t.leaves.length := by omega
-    rwa [e] at h2
+    exact PSum.step_add hu0 hu1 s.leaves_length_pos t.leaves_length_pos ihs iht hd
+  | @sub s t ys yt y _ _ h ihs iht =>
+    obtain ⟨d, hd, rfl⟩ := h
+    simp only [STree.leaves, List.length_append, negl_length]
+    have := PSum.step_add hu0 hu1 s.leaves_length_pos t.leaves_length_pos ihs iht.neg hd
+    rwa [← sub_eq_add_neg] at this
+  | @neg s ys _ ih =>
+    simp only [STree.leaves, negl_length]
+    exact ih.neg
   | @fma s a b ys y _ h ihs =>
     obtain ⟨d, hd, rfl⟩ := h
     simp only [STree.leaves, List.length_append, List.length_singleton]
-    have h0 : PSum u s.leaves.length [(a, b)] (a * b) := by
-      simpa using PSum.single a b (Fac.one u hu0 hu1 s.leaves.length)
-    exact (ihs.append h0).scale hu1 (Fac.one_add hu1 hd)
+    exact PSum.step_fma hu0 hu1 a b ihs hd
+  | @fms s a b ys y _ h ihs =>
+    obtain ⟨d, hd, rfl⟩ := h
+    simp only [STree.leaves, List.length_append, List.length_singleton]
+    have := PSum.step_fma hu0 hu1 (-a) b ihs hd
+    have e : ys + -a * b = ys - a * b := by ring
+    rwa [e] at this
+
+/-- one spine step `fl(t - s)` -/
+theorem spine_sub (hu0 : 0 ≤ u) (hu1 : u < 1) {c yt r0 y' ys d : F} {kt js : Nat}
+    {lt ls : List (F × F)} (hr0 : Fac u kt r0) (hy' : PSum u kt lt y') (e : yt * r0 = c - y')
+    (hs : PSum u js ls ys) (hjs : 0 < js) (hd : |d| ≤ u) :
+    ∃ r0' y'' : F, Fac u (kt + js) r0' ∧ PSum u (kt + js) (lt ++ ls) y'' ∧
+      (yt - ys) * (1 + d) * r0' = c - y'' := by
+  have hpos := one_add_pos hu1 hd
+  refine ⟨r0 / (1 + d), y' + ys * r0, ?_, ?_, ?_⟩
+  · exact (hr0.div hu1 (Fac.one_add hu1 hd)).mono hu0 hu1 (by omega)
+  · refine (hy'.mono hu0 hu1 (by omega)).append ?_
+    have := hs.scale hu1 hr0
+    rwa [add_comm] at this
+  · field_simp
+    linear_combination e
+
+/-- one spine step `fl(t - a*b)` with a single rounding -/
+theorem spine_fms (hu0 : 0 ≤ u) (hu1 : u < 1) {c yt r0 y' d : F} {kt : Nat}
+    {lt : List (F × F)} (a b : F) (hr0 : Fac u kt r0) (hy' : PSum u kt lt y') (e : yt * r0 = c - y')
+    (hd : |d| ≤ u) :
+    ∃ r0' y'' : F, Fac u (kt + 1) r0' ∧ PSum u (kt + 1) (lt ++ [(a, b)]) y'' ∧
+      (yt - a * b) * (1 + d) * r0' = c - y'' := by
+  have hpos := one_add_pos hu1 hd
+  refine ⟨r0 / (1 + d), y' + a * b * r0, ?_, ?_, ?_⟩
+  · exact hr0.div hu1 (Fac.one_add hu1 hd)
+  · exact (hy'.mono hu0 hu1 (by omega)).append (PSum.single a b (hr0.mono hu0 hu1 (by omega)))
+  · field_simp
+    linear_combination e
 
 /-- **spine invariant**: a value `y` of a tree with `k` products satisfies `y r₀ = c - Σ aᵢ bᵢ rᵢ`
 with `r₀` and all `rᵢ` perturbation factors of count `k` -/
@@ -434,28 +541,26 @@ theorem CTree.Eval.psum (hu0 : 0 ≤ u) (hu1 : u < 1) {T : CTree F} {y : F} (h :
   | @sub t s yt ys y _ hs h ih =>
     obtain ⟨r0, y', hr0, hy', e⟩ := ih
     obtain ⟨d, hd, rfl⟩ := h
-    have hpos := one_add_pos hu1 hd
-    have hsl := s.leaves_length_pos
-    have hps := hs.psum hu0 hu1
     simp only [CTree.leaves, List.length_append, CTree.head]
-    refine ⟨r0 / (1 + d), y' + ys * r0, ?_, ?_, ?_⟩
-    · exact (hr0.div hu1 (Fac.one_add hu1 hd)).mono hu0 hu1 (by omega)
-    · refine (hy'.mono hu0 hu1 (by omega)).append ?_
-      have := hps.scale hu1 hr0
-      rwa [add_comm] at this
-    · field_simp
-      linear_combination e
+    exact spine_sub hu0 hu1 hr0 hy' e (hs.psum hu0 hu1) s.leaves_length_pos hd
+  | @add t s yt ys y _ hs h ih =>
+    obtain ⟨r0, y', hr0, hy', e⟩ := ih
+    obtain ⟨d, hd, rfl⟩ := h
+    simp only [CTree.leaves, List.length_append, CTree.head, negl_length]
+    have := spine_sub hu0 hu1 hr0 hy' e (hs.psum hu0 hu1).neg s.leaves_length_pos hd
+    rwa [sub_neg_eq_add] at this
   | @fms t a b yt y _ h ih =>
     obtain ⟨r0, y', hr0, hy', e⟩ := ih
     obtain ⟨d, hd, rfl⟩ := h
-    have hpos := one_add_pos hu1 hd
     simp only [CTree.leaves, List.length_append, List.length_singleton, CTree.head]
-    refine ⟨r0 / (1 + d), y' + a * b * r0, ?_, ?_, ?_⟩
-    · exact hr0.div hu1 (Fac.one_add hu1 hd)
-    · exact (hy'.mono hu0 hu1 (by omega)).append
-        (PSum.single a b (hr0.mono hu0 hu1 (by omega)))
-    · field_simp
-      linear_combination e
+    exact spine_fms hu0 hu1 a b hr0 hy' e hd
+  | @fma t a b yt y _ h ih =>
+    obtain ⟨r0, y', hr0, hy', e⟩ := ih
+    obtain ⟨d, hd, rfl⟩ := h
+    simp only [CTree.leaves, List.length_append, List.length_singleton, CTree.head]
+    have := spine_fms hu0 hu1 (-a) b hr0 hy' e hd
+    have e' : yt - -a * b = yt + a * b := by ring
+    rwa [e'] at this
 
 /-- from the invariant to Higham's form -/
 theorem bound_of_psum (hu0 : 0 ≤ u) {k : Nat} (hk : (k : F) * u < 1) {l : List (F × F)}
@@ -489,7 +594,10 @@ theorem lemma84_none (hu0 : 0 ≤ u) {T : CTree F} {y : F} (h : T.Eval u y)
     | lit c => simp [CTree.leaves, CTree.head, dotSum, dotAbs, gamma]
     | @sub t s _ _ _ _ _ _ =>
       have := s.leaves_length_pos; simp only [CTree.leaves, List.length_append] at h0; omega
+    | @add t s _ _ _ _ _ _ =>
+      have := s.leaves_length_pos; simp only [CTree.leaves, List.length_append, negl_length] at h0; omega
     | fms _ _ => simp [CTree.leaves] at h0
+    | fma _ _ => simp [CTree.leaves] at h0
   · have hu1 : u < 1 := by
       have : (1 : F) ≤ T.leaves.length := by exact_mod_cast h0
       nlinarith
